@@ -98,6 +98,9 @@ def flatten(t):
     return out
 
 
+q_all_addr = z3.Function("q_all_addr", z3.SeqSort(STR), INT, BOOL)
+
+
 class LawBook:
     """Per-path record of the text terms that occurred, for cross instantiation."""
 
@@ -211,15 +214,22 @@ class LawBook:
                 last = parts[-1]
                 ll = lit_value(last)
                 head = self.concat(parts[:-1])
+                self.rstrip_forms = getattr(self, "rstrip_forms", [])
                 if ll is not None and ll.strip() == "":
                     # trailing blanks: rstrip(x ++ blanks) = rstrip(x)
-                    c.add_fact(r == self.rstrip(head))
+                    rh = self.rstrip(head)
+                    c.add_fact(r == rh)
+                    self.rstrip_forms += [(r, cform) for r0, cform in list(self.rstrip_forms) if r0.eq(rh)]
                 else:
                     # rstrip(x ++ y) = x ++ rstrip(y) when rstrip(y) is not empty
                     ry = self.rstrip(last)
-                    c.add_fact(z3.Implies(ry != EMPTY, r == self.concat([head, ry])))
+                    cform = self.concat([head, ry])
+                    c.add_fact(z3.Implies(ry != EMPTY, r == cform))
                     # ... and when y is all blanks it disappears
                     c.add_fact(z3.Implies(ry == EMPTY, r == self.rstrip(head)))
+                    # (x ++ rstrip(y) is the shape a later split of r is matched against; r equals it also when
+                    # rstrip(y) is empty and x has a clean end)
+                    self.rstrip_forms.append((r, cform))
         return r
 
     def strip(self, s):
@@ -269,6 +279,12 @@ class LawBook:
                     hyp = [z3.Not(self.contains(p, sep)) for p in rest]
                     concl = [n == n0 + len(rest), n0 >= 1] + [split_get(s, sep, n0 + j) == p for j, p in enumerate(rest)]
                     c.add_fact(z3.Implies(z3.And(hyp), z3.And(concl)))
+            # ... or the rstrip of one: x ++ rstrip(y)
+            for r0, cform in list(getattr(self, "rstrip_forms", [])):
+                if r0.eq(s):
+                    jparts = self._as_join(cform, sep)
+                    if jparts is not None:
+                        self._split_join(s, sep, sep, jparts, cform)
 
         def get(i):
             e = split_get(s, sep, i)
@@ -374,6 +390,10 @@ class LawBook:
             # str(int(s)) is the canonical spelling: int(str(int(s))) = int(s) comes from str_of_int
             pass
         return py_int_ok(s), py_int(s)
+
+    # ---- sequences of lines
+    # (q_all_addr(q, n): every line in the sequence q is a command for node n - an uninterpreted predicate with
+    # the three facts a deque needs: empty, append at the end, pop at the front; see contract.m_all_addressed)
 
     # ---- bytes
     def ff(self, n):
